@@ -2,9 +2,9 @@
 Parse-level places that read the two preferences (C12):
   * `Options.__init__` (options.py:151-155): no_data_loss ⇒ addition=False unless the caller chose one
     (with fix C12-ndl-addition-default: also when `addition` is left at its default),
-  * the tuple prefix parser `_parse_tuple_args` (rule.py:1891-1899): excess items,
-  * unknown keys of a data class / function (`parse_addition`, base.py:390-399),
-  * list / tuple input of a data class (`transform_dataclass`, cls.py:596-606).
+  * the tuple prefix parser `_parse_tuple_args` (rule.py:1925-1933): excess items,
+  * unknown keys of a data class / function (`parse_addition`, base.py:411-435),
+  * list / tuple input of a data class (`transform_dataclass`, cls.py:632-642).
 -/
 import Utv.Model.Conv
 namespace Utv.C12M
@@ -27,23 +27,30 @@ def normAddition (ndl : Bool) (a : Addition) : Addition :=
      | .unset => .none
      | a => a)
 
-/-- base.py:390-399 `parse_addition` for an unknown key: rejected (ExceedError), dropped, or kept -/
+/-- base.py:411-435 `parse_addition` for an unknown key: rejected (ExceedError), dropped, or kept -/
 inductive KeyFate where
   | rejected | dropped | kept
   deriving DecidableEq, Repr
 
-def unknownKey (a : Addition) : KeyFate :=
+def unknownKey (excluded : Bool) (a : Addition) : KeyFate :=
+  if excluded then
+    -- `key in self.exclude_vars` (base.py:412-418, func.py:604-612; with fix C12-excluded-key-under-ndl): a private /
+    -- ClassVar name is never carried as an addition; where unknown keys are refused it is refused too
+    (match a with
+     | .no => .rejected
+     | _ => .dropped)
+  else
   match a with
   | .no => .rejected
   | .yes => .kept
   | _ => .dropped
 
-/-- rule.py:1896-1899: the indices handed to `context.handle_error(TupleExceedError)`; with the default
+/-- rule.py:1929-1932: the indices handed to `context.handle_error(TupleExceedError)`; with the default
 (fail-fast) context the first one raises -/
 def tupleExcess (a : Addition) (ndl : Bool) (nargs nvals : Nat) : List Nat :=
   if nvals > nargs && (a == .no || ndl) then List.range' nargs (nvals - nargs) else []
 
-/-- cls.py:596-606: what `transform_dataclass` hands on for a list / tuple input (the data-class instance
+/-- cls.py:632-642: what `transform_dataclass` hands on for a list / tuple input (the data-class instance
 shortcuts are outside `V`) -/
 def dataclassUnwrap (f : Flags) (v : V) : Outcome V :=
   match v with
@@ -55,16 +62,22 @@ def dataclassUnwrap (f : Flags) (v : V) : Outcome V :=
     else .ok v
   | _ => .ok v
 
-/-- `transform_dataclass` followed by the input stage of `init_dataclass` (cls.py:563-574): the mapping that
+/-- `transform_dataclass` followed by the input stage of `init_dataclass` (cls.py:590-621): the mapping that
 reaches `cls.__init__(**data)`.  `fr` are the preferences of the running transformer (they decide the
 unwrapping), `fc` those of the data class's own options (they decide how a non-mapping becomes a dict). -/
+def keywordData (d : V) : Outcome V :=
+  -- cls.py:571-587 `keyword_data` (cast_keyword_str off): the mapping becomes keyword arguments, keys must be str
+  match d with
+  | .dict _ kvs => if kvs.all (fun kv => isInst kv.1 .str) then .ok d else .perr .typeError
+  | _ => .ok d
+
 def dataclassInput (P : Prims) (E : Env) (fr fc : Flags) (v : V) : Outcome V :=
   dataclassUnwrap fr v >>= fun d =>
-    if isInst d .dict then .ok d
-    else if fc.nec then .perr .typeError
-    else toDict P E fc 0 d
+    (if isInst d .dict then .ok d
+     else if fc.nec then .perr .typeError
+     else toDict P E fc 0 d) >>= keywordData
 
-/-! ### `transform_dataclass` with instances of the class among the input (cls.py:615-630) -/
+/-! ### `transform_dataclass` with instances of the class among the input (cls.py:632-647) -/
 
 /-- what `transform_dataclass` does with its input: return an object that already is an instance, or hand a
 value to `init_dataclass` -/
@@ -73,7 +86,7 @@ inductive DcResult where
   | init (v : V)
   deriving Repr
 
-/-- cls.py:615-630.  `isExact d` = `type(d) == cls`, `isInst d` = `isinstance(d, cls)`, `allowSub` =
+/-- cls.py:632-647.  `isExact d` = `type(d) == cls`, `isInst d` = `isinstance(d, cls)`, `allowSub` =
 `Options.allow_subclasses` (of the running transformer).  The length check under no_data_loss comes
 *before* the look at the first item: several items never collapse, whatever they are. -/
 def dataclassStep (isExact isInst : V → Bool) (allowSub : Bool) (f : Flags) (v : V) : Outcome DcResult :=
@@ -91,7 +104,7 @@ def dataclassStep (isExact isInst : V → Bool) (allowSub : Bool) (f : Flags) (v
     else if allowSub && isInst d then .ok (.instance d)
     else .ok (.init d)
 
-/-! ### Union types: the stages of `LogicalType.logical_parse` built from the flags (rule.py:381-431) -/
+/-! ### Union types: the stages of `LogicalType.logical_parse` built from the flags (rule.py:386-435) -/
 
 /-- `for con in args: try: return transformer(value, con) except Exception: collect` — the first member that
 converts; every exception class is caught, a hang is not -/
@@ -105,7 +118,7 @@ def firstOk (g : Target → Outcome V) : List Target → Outcome (Option V)
     | .diverge => .diverge
     | .unmodelled w => .unmodelled w
 
-/-- the stage skeleton of rule.py:381-431 over an abstract pass `pass flags` = "the first member that converts
+/-- the stage skeleton of rule.py:386-435 over an abstract pass `pass flags` = "the first member that converts
 under these flags": 1. exact type; 2. strict pass unless both preferences are set; 3. no-loss pass if none is
 set; 4. the context's own flags; else the collected errors are raised -/
 def unionStages (exact : Bool) (pass : Flags → Outcome (Option V)) (f : Flags) (v : V) : Outcome V :=
@@ -123,15 +136,15 @@ def unionStages (exact : Bool) (pass : Flags → Outcome (Option V)) (f : Flags)
       | some r => .ok r
       | none => .perr .typeError
 
-/-- rule.py:381-431 over an abstract member converter `conv flags member value`:
+/-- rule.py:386-435 over an abstract member converter `conv flags member value`:
 1. a value whose exact type is a member passes through; 2. unless both preferences are already set, every
 member is tried under both (the strict stage); 3. if neither is set, every member under no_data_loss;
 4. every member under the context's own flags; else the collected errors are raised (a ParseError). -/
 def unionParse (conv : Flags → Target → V → Outcome V) (f : Flags) (ts : List Target) (v : V) : Outcome V :=
   unionStages (ts.any (fun t => typeEq v t)) (fun g => firstOk (fun t => conv g t v) ts) f v
 
-/-! ### members of a Union that are Rules: parametrised generics and constrained types (rule.py:1689-1760,
-`_parse_seq_args` :1969-1995, `_parse_map_args` :1998-2060, `_parse_tuple_args` :1908-1966), default options
+/-! ### members of a Union that are Rules: parametrised generics and constrained types (rule.py:1706-1777,
+`_parse_seq_args` :1986-2012, `_parse_map_args` :2015-2081, `_parse_tuple_args` :1925-1983), default options
 (fail-fast context: the first `handle_error` raises a ParseError) -/
 
 /-- one constraint of a constrained Rule (`class R(int, Rule): gt = 0`) -/
@@ -212,7 +225,7 @@ def parseTuple (P : Prims) (E : Env) (f : Flags) : List Ty → List V → Outcom
 termination_by structural ts => ts
 end
 
-/-! #### the context a member runs in (rule.py:393-394: `with context.enter(...)` *inside* the loop) -/
+/-! #### the context a member runs in (rule.py:397-398: `with context.enter(...)` *inside* the loop) -/
 
 /-- `RuntimeContext.handle_error` keeps the error in `context.errors` even when it raises, and `Rule.parse`
 ends with `context.raise_error()`: a Rule run in a context that already holds an error fails.  `runMember
@@ -253,10 +266,27 @@ def Ty.isRule : Ty → Bool
   | .plain _ => false
   | _ => true
 
-/-- the Union over member *types* (rule.py:381-431): `unionParse` with `parseTy` as member converter; the
+/-- the Union over member *types* (rule.py:386-435): `unionParse` with `parseTy` as member converter; the
 exact-type shortcut only applies to plain members -/
 def unionParseTy (P : Prims) (E : Env) (f : Flags) (ts : List Ty) (v : V) : Outcome V :=
   unionStages (ts.any fun t => match t with | .plain t' => typeEq v t' | _ => false)
     (fun g => passFresh (ts.map fun t => (t.isRule, parseTy P E g t v))) f v
+
+/-! ### preferences that reach a class by inheritance / from an overriding outer class (hand models of
+`BaseParser.apply_for` base.py:41-67 and `Options.make_context` options.py:249-258; tied by the `inherit` cases only) -/
+
+/-- `getattr(cls, '__options__', None)` along the MRO (the class itself first): the nearest declaration -/
+def declaredFlags : List (Option Flags) → Flags
+  | [] => ⟨false, false⟩
+  | some f :: _ => f
+  | none :: rest => declaredFlags rest
+
+/-- `Options.make_context(context=outer)`: the outer context's options replace the class's own only when the
+outer ones say `override` and the own ones do not -/
+def contextFlags (own : Flags × Bool) (outer : Option (Flags × Bool)) : Flags :=
+  match outer with
+  | some (fo, true) => if own.2 then own.1 else fo
+  | _ => own.1
+
 
 end Utv.C12M
